@@ -77,6 +77,8 @@ def run_case(case):
         declared = (base + rng.permutation(2 * K)[:K]).tolist()
         nu = int(rng.integers(1, K + 1))
         used = np.array(declared)[rng.permutation(K)[:nu]]          # some declared classes stay empty
+        if case.get('manywords'):
+            used = np.array(declared)[rng.permutation(K)[:max(nu, 4)]]
     if struct == 'single':
         used = used[:1] if mode != 'auto' else np.array([used.max()])
     ku = len(used)
